@@ -32,6 +32,7 @@ type G2 struct {
 	Peer *G2
 	L    *[]*G1
 	PM   *map[string]*G1
+	PA   *[3]*G1 // pointer to an array: shared between nodes, its elements lead back to them
 	T    time.Time
 	S    []string
 	Pre  interface{}
@@ -134,9 +135,17 @@ func GenGraph(rt *rapid.T, acyclic bool) *Graph {
 			g.Clutter = append(g.Clutter, ct.String())
 		}
 	}
+	// one array behind a pointer that several G2 nodes may share (cyclic mode only: its elements are G1 nodes)
+	var sharedPA *[3]*G1
+	if !acyclic && n2 > 0 && rapid.Bool().Draw(rt, "hasPA") {
+		sharedPA = &[3]*G1{pick1(-1, "pa0"), pick1(-1, "pa1"), pick1(-1, "pa2")}
+	}
 	for i, y := range g2 {
 		// G2 -> G1 edges close cycles; in acyclic mode G2 nodes are leaves towards G1
 		if !acyclic {
+			if sharedPA != nil && rapid.IntRange(0, 2).Draw(rt, "usePA") > 0 {
+				y.PA = sharedPA
+			}
 			y.Back = pick1(-1, "back")
 			if rapid.Bool().Draw(rt, "hasL") {
 				l := []*G1{pick1(-1, "l0"), pick1(-1, "l1")}
